@@ -1,7 +1,7 @@
 SPECIFICATION Spec
 CONSTANTS
-  Families <- MCFamilies
-  ProgramsOf <- MCProgramsOf
+  Families <- ScFamilies
+  ProgramsOf <- ScProgramsOf
 INVARIANT GeneratedWellFormed
 INVARIANT WitnessTypesAsDeclared
 INVARIANT CompileCorrect
